@@ -83,6 +83,12 @@ func (t *Text) GenerateOutput(textOnly bool) string {
 		clonedRoot = div
 	}
 
+	// Table parts can't live outside a table either: when the distilled HTML is parsed
+	// they are dropped and the text of neighbouring cells is glued into one word.
+	if isTablePart(dom.TagName(clonedRoot)) {
+		replaceOrphanTableParts(clonedRoot)
+	}
+
 	// Retain parent tags until the root is not an inline element, to make sure the
 	// style is display:block.
 	var srcRoot *html.Node
@@ -125,6 +131,32 @@ func (t *Text) GenerateOutput(textOnly bool) string {
 	}
 
 	return dom.OuterHTML(clonedRoot)
+}
+
+func isTablePart(tagName string) bool {
+	switch tagName {
+	case "td", "th", "tr", "tbody", "thead", "tfoot", "caption", "colgroup", "col":
+		return true
+	default:
+		return false
+	}
+}
+
+// replaceOrphanTableParts turns the table parts of a subtree that
+// are not inside a table element of that subtree into div elements.
+func replaceOrphanTableParts(node *html.Node) {
+	if node.Type != html.ElementNode || node.Data == "table" {
+		return
+	}
+
+	if isTablePart(node.Data) {
+		node.Data = "div"
+		node.DataAtom = 0
+	}
+
+	for child := node.FirstChild; child != nil; child = child.NextSibling {
+		replaceOrphanTableParts(child)
+	}
 }
 
 func (t *Text) AddLabel(s string) {
